@@ -1,5 +1,6 @@
 import KfacVerif.Model.Sched
 import KfacVerif.Model.PrecondExt
+import KfacVerif.Model.Spec
 
 namespace KV.Driver
 open KV KV.Precond
@@ -99,8 +100,28 @@ def precondOp (args : List String) : String :=
     s!"r{r}=" ++ joinWith ";" ((project r s.acts).map showRAct))
   let holds := joinWith " " ((worldRanks c).map fun r =>
     s!"r{r}=" ++ String.ofList ((layerIdxs c).map fun l => if holdsSecondOrder c s r l then '1' else '0'))
+  -- refinement check on this very history (ops with a kept-state roll-back are skipped)
+  let parseOp (o : String) : Option Op :=
+    if o == "f1" then some (.fwdBwd true) else if o == "f0" then some (.fwdBwd false)
+    else if o == "r" then some .resetBatch else if o == "s" then some .step else if o == "m" then some .memUsage
+    else if o.startsWith "v" then some (.save (o == "v1"))
+    else if o.startsWith "l" then some (.saveLoad (o.toList.getD 1 (Char.ofNat 48) == (Char.ofNat 49)) (o.toList.getD 2 (Char.ofNat 48) == (Char.ofNat 49)))
+    else if o.startsWith "h:" then some (.setHyper (parseHyper ((o.drop 2).toString.replace "/" "|" |>.replace "%" "/")))
+    else none
+  let pops := ops.map parseOp
+  let specOk : String :=
+    if pops.any Option.isNone then "skipped" else
+    let opl := pops.filterMap id
+    let t := KV.Spec.run (KV.Spec.ofCfg c) (KV.Spec.SSt.init (KV.Spec.ofCfg c) h0) opl
+    let s2 := run c (St.init c h0) opl
+    if s2.err.isSome then "skipped-err" else
+    let okOut := (worldRanks c).all fun r => s2.outGrads.getD r [] == t.out
+    let okF := (worldRanks c).all fun r => (layerIdxs c).all fun l =>
+      ((getL s2 r l).aFactor.map (·.val)) == (KV.Spec.getS t l).aFactor &&
+      ((getL s2 r l).gFactor.map (·.val)) == (KV.Spec.getS t l).gFactor
+    if s2.steps == t.steps && s2.defs == t.defs && okOut && okF then "1" else "0"
   let err := match s.err with | some (r, w) => s!"rank {r}: {w}" | none => "none"
   let stalled := s.acts.any fun a => match a with | .stall _ _ => true | _ => false
-  joinWith " | " outs ++ " ## " ++ traces ++ " ## " ++ holds ++ " ## err=" ++ err ++ " ## " ++ joinWith ";" (s.defs.map V.show) ++ " ## wfinfo"  ++ " wf=" ++ showBool (KV.Sched2.wf c.world s.acts) ++ " stall=" ++ showBool stalled
+  joinWith " | " outs ++ " ## " ++ traces ++ " ## " ++ holds ++ " ## err=" ++ err ++ " ## " ++ joinWith ";" (s.defs.map V.show) ++ " ## wfinfo"  ++ " wf=" ++ showBool (KV.Sched2.wf c.world s.acts) ++ " spec=" ++ specOk ++ " stall=" ++ showBool stalled
 
 end KV.Driver
